@@ -391,7 +391,23 @@ type c06Variant struct {
 	Cancel  bool   // with CtxDead: the request's context is really cancelled at the fault (every later operation bound to it fails too)
 	CtxDead bool   // secret: mount whose revocation is a context-bound call; the request's context ends at the fault
 	Quick   bool   // part of the quick tier
+	// LightQuick: in the quick tier only the fault-free runs are made (the variant differs from a fully
+	// enumerated one in configuration, not in its write sequence); thorough enumerates it like the others
+	LightQuick bool
 }
+
+// c06Roles are the token roles of every namespace: each changes what handleCreateCommon puts into the token
+// entry (and therefore where the token's lease is filed or how it is registered).
+var c06Roles = map[string]map[string]any{
+	"suffix":  {"path_suffix": "sfx"},
+	"period":  {"token_period": "30m"},
+	"orphan":  {"orphan": true},
+	"norenew": {"renewable": false},
+	"batch":   {"token_type": "batch", "orphan": true, "renewable": false},
+	"all":     {"path_suffix": "a-b_c", "orphan": true, "token_period": "20m", "token_type": "service", "renewable": true},
+}
+
+var c06RoleNames = []string{"suffix", "period", "orphan", "norenew", "batch", "all"}
 
 func c06Variants() []c06Variant {
 	var out []c06Variant
@@ -500,6 +516,21 @@ func c06Variants() []c06Variant {
 			}
 		}
 	}
+	// tokens created through token roles whose attributes alter the token entry
+	for _, role := range c06RoleNames {
+		for _, ns := range []string{"", "ns1/"} {
+			for _, wrap := range []bool{false, true} {
+				v := c06Variant{Kind: "create", Create: "role:" + role, NS: ns, Wrap: wrap, Caller: "service", TokType: "service"}
+				if role == "batch" {
+					v.TokType = "batch"
+				}
+				v.Name = fmt.Sprintf("create/role-%s/ns=%s/wrap=%v", role, ns, wrap)
+				v.Quick = role == "suffix" || (ns == "" && !wrap) || (role == "all" && ns == "ns1/" && wrap)
+				v.LightQuick = !(role == "suffix" && ns == "" && !wrap)
+				add(v)
+			}
+		}
+	}
 	return out
 }
 
@@ -598,6 +629,13 @@ func c06Boot(t *testing.T, transactional, cache bool) *vCore {
 		v.Mount("c06ctx", "c06ctx", ns, nil)
 		v.EnableAuth("c06auth", "verifrec", ns)
 		v.MustDo(vReq{Op: logical.UpdateOperation, Path: "auth/token/roles/c06role", Token: v.Root, NS: ns, Data: map[string]any{"allowed_policies": "c06,default", "renewable": true}})
+		for _, role := range c06RoleNames {
+			data := map[string]any{"allowed_policies": "c06,default"}
+			for k, x := range c06Roles[role] {
+				data[k] = x
+			}
+			v.MustDo(vReq{Op: logical.UpdateOperation, Path: "auth/token/roles/c06r-" + role, Token: v.Root, NS: ns, Data: data})
+		}
 	}
 	return v
 }
@@ -648,6 +686,45 @@ type c06Case struct {
 	faultCls *c06ErrClass // error class of the injected fault (nil = the kit's generic error)
 	faulted  kit.Event    // the storage operation that failed
 	noWindow bool         // skip the restart with held lease restoration (done by the generic-error run of the same operation)
+}
+
+// secretLeaseWritten returns the position in c.ops of the last successful write of the secret's lease bookkeeping
+// (lease record or token-index entry) that precedes the faulted operation, -1 if none.
+func (c *c06Case) secretLeaseWritten() int {
+	at := -1
+	for i, e := range c.ops {
+		if e.Seq == c.faulted.Seq && e.Err != "" {
+			break
+		}
+		if e.Op == "put" && e.Err == "" && (&c06Case{faulted: e}).leaseWriteFault() {
+			at = i
+		}
+	}
+	return at
+}
+
+// readFaultAfterLeaseWrite: the injected fault hit a read (get / list) that the request made after it had written
+// the secret's lease bookkeeping.
+func (c *c06Case) readFaultAfterLeaseWrite() bool {
+	switch c.faulted.Op {
+	case "get", "list", "listpage":
+		return c.secretLeaseWritten() >= 0
+	}
+	return false
+}
+
+// postRegTokenCheckFault: that read is the re-read of the requesting token's own entry (the key the request read
+// first when it was authenticated).
+func (c *c06Case) postRegTokenCheckFault() bool {
+	if c.faulted.Op != "get" || !strings.Contains(c.faulted.Key, "sys/token/id/") || !c.readFaultAfterLeaseWrite() {
+		return false
+	}
+	for _, e := range c.ops {
+		if e.Op == "get" && strings.Contains(e.Key, "sys/token/id/") {
+			return e.Key == c.faulted.Key && e.Seq != c.faulted.Seq
+		}
+	}
+	return false
 }
 
 // leaseWriteFault reports whether the injected fault hit a write of the secret's lease bookkeeping: the put
@@ -779,6 +856,9 @@ func (c *c06Case) request(tag string) (*logical.Response, error) {
 		rq.Op = logical.UpdateOperation
 		rq.Path = "auth/token/create"
 		rq.Data = map[string]any{"policies": []string{"c06"}, "ttl": c.ttl}
+		if strings.HasPrefix(vr.Create, "role:") {
+			rq.Path = "auth/token/create/c06r-" + strings.TrimPrefix(vr.Create, "role:")
+		}
 		switch vr.Create {
 		case "child":
 		case "orphan":
@@ -952,6 +1032,10 @@ func c06Judge(r *kit.Result, c *c06Case, caseID string, resp *logical.Response, 
 			case "token":
 				if te := sn.tokenByAccessor(p0.Accessor); te == nil || sn.leaseForToken(te.ID) == nil {
 					early = append(early, c06Early{"C06-delivered-token-lease-not-durable", "the client received a service token and the store holds no lease record for it when the response is returned"})
+				} else if what := c06LeaseAtItsID(v, sn, te); what != "" {
+					early = append(early, c06Early{c06ClassLeaseID, "the client received a service token; " + what})
+				} else {
+					r.Count("delivered_token_lease_found_at_its_lease_id", 1)
 				}
 			}
 			r.Count("delivery_durability_checked_before_wait", 1)
@@ -1058,7 +1142,12 @@ func c06Judge(r *kit.Result, c *c06Case, caseID string, resp *logical.Response, 
 		// narrow signature: a write of the lease bookkeeping was refused with a read-only / standby class error,
 		// the client got an error, and the secret is still live at its backend
 		roClass := c.faultCls != nil && c.faultCls.Forward && c.leaseWriteFault() && (held.How == "error" || held.How == "empty") && !rev
+		// narrow signature: no write failed; the read that failed is the re-read of the requesting token after the
+		// lease and its index entry were written; the client got an error and the secret is still live and leased
+		postReg := c.postRegTokenCheckFault() && (held.How == "error" || held.How == "empty") && !rev && len(ls) > 0
 		switch {
+		case postReg:
+			viol(c06ClassPostReg, fmt.Sprintf("the lease of secret %s and its index entry were written, the re-read of the requesting token (get %s) failed, the client got an error, and the secret is not revoked at the backend; lease records left: %d, token-index entries left: %v", s, c06KeyClass(c.faulted.Key), len(ls), idx))
 		case roClass:
 			viol(c06ClassRO, fmt.Sprintf("the write was refused with %q, the client got an error, and secret %s is not revoked at the backend; lease records left: %d, token-index entries left: %v", c.faultCls.Err.Error(), s, len(ls), idx))
 		case rev && len(ls) == 0:
@@ -1139,9 +1228,23 @@ func c06Judge(r *kit.Result, c *c06Case, caseID string, resp *logical.Response, 
 			default:
 				r.Count("delivered_token_lease_checked", 1)
 			}
+			atID := true
+			if te != nil && s1.leaseForToken(te.ID) != nil && pay.How == "wrapped" {
+				// (an unwrapped delivery was checked when the response was returned)
+				if what := c06LeaseAtItsID(v, s1, te); what != "" {
+					atID = false
+					viol(c06ClassLeaseID, "the client holds a service token (unwrapped from the response); "+what)
+				} else {
+					r.Count("delivered_token_lease_found_at_its_lease_id", 1)
+				}
+			}
 			if !v.TokenUsable(held.Token, vr.NS) {
 				r.Count("delivered_token_unusable", 1)
-				r.Note("%s: delivered service token is not usable (fault: %s)", caseID, fault)
+				if atID && c.bad == 0 {
+					viol("C06-delivered-token-not-usable", "the client holds a service token with a durable lease and its first use (auth/token/lookup-self) is refused")
+				} else {
+					r.Note("%s: delivered service token is not usable (fault: %s)", caseID, fault)
+				}
 			}
 		}
 	}
@@ -2027,6 +2130,30 @@ func c06Hash(x string) uint64 {
 
 const c06ClassX2 = "C06-X2-rollback-storage-cleanup-bound-to-cancelled-request-context"
 
+const c06ClassLeaseID = "C06-token-returned-without-lease-at-its-lease-id"
+
+const c06ClassPostReg = "C06-secret-kept-after-read-fault-in-post-registration-token-check"
+
+// c06LeaseAtItsID asks the product itself for the lease of a stored token entry: the expiration manager derives
+// the token's lease id (entry path + salted id, namespace suffix) and reads that record. "" = found.
+func c06LeaseAtItsID(v *vCore, sn *c06State, te *logical.TokenEntry) string {
+	ctx := namespace.RootContext(context.Background())
+	for _, nn := range c06Namespaces(v) {
+		if nn.ID == te.NamespaceID {
+			ctx = namespace.ContextWithNamespace(context.Background(), nn)
+		}
+	}
+	le, err := v.Core.expiration.FetchLeaseTimesByToken(ctx, te)
+	if err == nil && le != nil {
+		return ""
+	}
+	where := "no lease record names the token at all"
+	if l := sn.leaseForToken(te.ID); l != nil {
+		where = fmt.Sprintf("the only lease record naming the token is filed as %s", l.LeaseID)
+	}
+	return fmt.Sprintf("the expiration manager finds no lease at the lease id it derives for that token (entry path %q; FetchLeaseTimesByToken: lease=%v err=%v); %s", te.Path, le != nil, err, where)
+}
+
 const c06ClassRO = "C06-secret-not-revoked-after-read-only-class-lease-write-failure"
 
 const c06ClassEdgeBatch = "C06-secret-issued-to-expiring-batch-token-neither-leased-nor-revoked"
@@ -2095,8 +2222,45 @@ func TestVerif_C06_Faults(t *testing.T) {
 			}
 		}
 	}
+	if kit.Tier() == "quick" {
+		// quick has one full round, physical cache off (every read reaches the store). The reduced round: physical cache
+		// ON, leased-secret variants, each on one store kind, the generic error at every operation from the request's
+		// first effect on - whatever the cache still lets through to the store fails once.
+		c06Reduced = true
+		for ti, tx := range []bool{false, true} {
+			rng := kit.NewRand(seed, uint64(1000+shard*10)*2+uint64(ti))
+			var v *vCore
+			n := 0
+			for vi, vr := range vars {
+				if vr.Kind != "secret" || vr.LightQuick || vr.CtxDead || (vi+ti)%2 != 0 {
+					continue
+				}
+				if n%12 == 0 {
+					if v != nil {
+						v.Close()
+						delete(c06Stuck, v)
+						delete(c06Injs, v)
+					}
+					v = c06Boot(t, tx, true)
+					c06Populate(t, v, rng)
+				}
+				n++
+				c06FaultVariant(t, v, r, rng, vr, tx, 1)
+			}
+			if v != nil {
+				v.Close()
+				delete(c06Stuck, v)
+				delete(c06Injs, v)
+			}
+		}
+		c06Reduced = false
+		r.Require("faults_fired:cache_on", 40)
+	}
 	r.Count("settle_waits_soft_25ms", c06SettleSoft)
 	r.Count("settle_waits_hard_25ms", c06SettleHard)
+	r.Require("read_faults_after_secret_lease_write", 20)
+	r.Require("post_registration_token_check_read_faults", 15)
+	r.Require("delivered_token_lease_found_at_its_lease_id", 40)
 	r.Require("faults_fired", 300)
 	r.Require("fault_after_effect", 60)
 	r.Require("secret_rolled_back", 10)
@@ -2124,6 +2288,9 @@ func TestVerif_C06_Faults(t *testing.T) {
 	r.Require("class_fault_rolled_back", 40)
 }
 
+// c06Reduced: the reduced round of the quick tier (see TestVerif_C06_Faults).
+var c06Reduced bool
+
 func c06FaultVariant(t *testing.T, v *vCore, r *kit.Result, rng *kit.Rand, vr c06Variant, tx bool, round int) {
 	base := fmt.Sprintf("fault:%v:%d:%s", tx, round, vr.Name)
 	if oc := kit.OnlyCase(); oc != "" && !strings.HasPrefix(oc, base+":") {
@@ -2136,7 +2303,7 @@ func c06FaultVariant(t *testing.T, v *vCore, r *kit.Result, rng *kit.Rand, vr c0
 		rng := kit.NewRand(kit.Seed(6), c06Hash(caseID)) // per-case stream: a replay draws the same parameters
 		c := c06NewCase(v, vr, tx, rng)
 		cls := runCls
-		c.faultCls, c.noWindow = cls, cls != nil
+		c.faultCls, c.noWindow = cls, cls != nil || c06Reduced
 		if err := c.setup(); err != nil {
 			r.Inconc("%s: fixture failed: %v", caseID, err)
 			return false, faulted, vd, false
@@ -2204,6 +2371,15 @@ func c06FaultVariant(t *testing.T, v *vCore, r *kit.Result, rng *kit.Rand, vr c0
 				fault += fmt.Sprintf(" with %q (error class %s)", cls.Err.Error(), cls.Name)
 			}
 			c.faulted = faulted
+			if c.readFaultAfterLeaseWrite() {
+				r.Count("read_faults_after_secret_lease_write", 1)
+				if v.Opts.Cache {
+					r.Count("read_faults_after_secret_lease_write:cache_on", 1)
+				}
+			}
+			if c.postRegTokenCheckFault() {
+				r.Count("post_registration_token_check_read_faults", 1)
+			}
 		}
 		vd = c06Judge(r, c, caseID, resp, err, fault)
 		if failAt == 0 {
@@ -2239,6 +2415,7 @@ func c06FaultVariant(t *testing.T, v *vCore, r *kit.Result, rng *kit.Rand, vr c0
 	var seq []kit.Event // the request's operations a fault can be injected at, in order
 	{
 		c := c06NewCase(v, vr, tx, rng)
+		c.noWindow = c06Reduced
 		if err := c.setup(); err != nil {
 			r.Inconc("%s: fixture failed: %v", base, err)
 			return
@@ -2274,13 +2451,34 @@ func c06FaultVariant(t *testing.T, v *vCore, r *kit.Result, rng *kit.Rand, vr c0
 		r.Count("faultfree_runs", 1)
 		r.Count("request_ops_total", n)
 	}
+	if vr.LightQuick && kit.Tier() == "quick" && kit.OnlyCase() == "" {
+		r.Count("light_variants_faultfree_only", 1)
+		return
+	}
+	// the request's first effect: a secret issued / a login built / the first write (position in seq, 0-based)
+	effectStart := len(seq)
+	for i, e := range seq {
+		if e.Op == "put" || e.Op == "delete" || e.Op == "commit" {
+			effectStart = i
+			break
+		}
+	}
+	if issuedAt >= 0 && issuedAt < effectStart {
+		effectStart = issuedAt
+	}
 	for i := 1; i <= n+3; i++ {
+		if c06Reduced && i <= effectStart {
+			continue
+		}
 		caseID := fmt.Sprintf("%s:%d", base, i)
 		if !kit.WantCase(caseID) {
 			continue
 		}
 		fired, faulted, vd, _ := run(caseID, i)
 		r.Eval(1)
+		if fired && v.Opts.Cache {
+			r.Count("faults_fired:cache_on", 1)
+		}
 		if !fired {
 			r.Count("fault_not_reached", 1)
 			if i > n {
@@ -2306,20 +2504,13 @@ func c06FaultVariant(t *testing.T, v *vCore, r *kit.Result, rng *kit.Rand, vr c0
 		}
 	}
 
+	if c06Reduced {
+		return
+	}
 	// ---- the same operations failing with the error classes a real store produces (c06Inj). From the first
 	// effect of the request on (a secret issued / a login built / the first write): every write with one of the
 	// read-only / standby class errors (rotating), every commit with the commit failure, every operation with
 	// a context error (alternating). The oracle is the same conservation law.
-	effectStart := len(seq)
-	for i, e := range seq {
-		if e.Op == "put" || e.Op == "delete" || e.Op == "commit" {
-			effectStart = i
-			break
-		}
-	}
-	if issuedAt >= 0 && issuedAt < effectStart {
-		effectStart = issuedAt
-	}
 	h := int(c06Hash(base) % 16)
 	for i := effectStart; i < len(seq); i++ {
 		e := seq[i]
@@ -2408,6 +2599,9 @@ func TestVerif_C06_Crash(t *testing.T) {
 			}
 			if vr.CtxDead {
 				continue // same write sequence as the plain variants
+			}
+			if vr.LightQuick && kit.Tier() == "quick" && kit.OnlyCase() == "" {
+				continue
 			}
 			if vr.Caller == "lastuse" {
 				// the registration part equals the "service" variants; the rest of its write sequence is the
@@ -2554,6 +2748,8 @@ func c06CrashVariant(t *testing.T, v *vCore, r *kit.Result, rng *kit.Rand, vr c0
 					switch {
 					case heldInternal == "" || sk.leaseForToken(heldInternal) == nil:
 						viol("C06-delivered-token-lease-not-durable", "the client holds a service token but the store after a restart has no lease record for it")
+					case sk.tokenByAccessor(held.Accessor) != nil && c06LeaseAtItsID(v2, sk, sk.tokenByAccessor(held.Accessor)) != "":
+						viol(c06ClassLeaseID, "the client holds a service token; after a restart on the complete journal "+c06LeaseAtItsID(v2, sk, sk.tokenByAccessor(held.Accessor)))
 					case !v2.TokenUsable(held.Token, vr.NS):
 						viol("C06-delivered-token-not-durable", "the client holds a service token which is refused after a restart on the complete journal")
 					default:
